@@ -26,7 +26,7 @@ def _agg_variant(b, local, adt):
     return vs.pop() if len(vs) == 1 else None
 
 
-def check(ctx, cfg, prog, rule):
+def check(ctx, cfg, prog, rule, mod=None):
     n_sites = 0
     for q, b in sorted(prog.bodies.items()):
         if '::tests::' in q or not b.file.startswith('src/'):
@@ -34,6 +34,7 @@ def check(ctx, cfg, prog, rule):
         stats_locals = [i for i, t in enumerate(b.locals) if t == STATS and i > b.nargs]
         if not stats_locals:
             continue
+        al = mod.aliases(q)
         # pair-building statements
         sites = []
         for blk in b.blocks:
@@ -98,6 +99,13 @@ def check(ctx, cfg, prog, rule):
                         at_site[(sb, ssi)] = at_site.get((sb, ssi), frozenset()) | st.get(origin(l), frozenset({INIT}))
                 st = step(st, s)
             t = blk.term
+            if t.k == 'call':
+                # a callee that receives `&mut stats` may set the field itself: not judged from here on
+                for o in t.args:
+                    tt = al.operand_target(o) if o.place is not None else None
+                    if tt is not None and tt[0] in st and tt[2]:
+                        st = dict(st)
+                        st[tt[0]] = frozenset({'<set by callee>'})
             if t.k == 'call' and t.dest is not None and t.dest.is_local() and t.dest.local in st:
                 st = dict(st)
                 st[t.dest.local] = frozenset({INIT})
@@ -120,9 +128,9 @@ def check(ctx, cfg, prog, rule):
                 continue        # unreachable
             n_sites += 1
             if v == 'Skipped':
-                ok = all(x.startswith('Skipped') for x in got)
+                ok = all(x.startswith('Skipped') or x == '<set by callee>' for x in got)
             else:
-                ok = all(x in ('Inserted', INIT) for x in got)
+                ok = all(x in ('Inserted', INIT, '<set by callee>') for x in got)
             ctx.ob(rule, 'STATSYNC|%s|%s' % (b.root or q, v), cfg, ok,
                    'pair (InsertionOutcome::%s, stats) built with stats.result in %s%s' % (
                        v, sorted(got), '' if ok else
